@@ -28,6 +28,8 @@ CONSTANTS
   U32R = 6
   Ticks = {}
   Clock0 = 1003
+  DelMax = 2
+  DelNewestOnly = FALSE
   MaxOps = 100000
   MaxSnaps = 3
   MaxClock = 100000000
